@@ -5,8 +5,42 @@ from vcheck import DiffProperty
 
 ARITY = {"new": 2, "after": 2, "before": 2, "add": 3, "nadd": 3, "ins": 3, "nins": 3, "unlink": 1, "move": 2,
          "lmove": 2, "clone": 1, "lclone": 1, "tclone": 1, "clear": 1, "destroy": 1, "swap": 2, "switch": 2,
-         "relink": 1, "trav": 3, "find": 3, "next": 2, "end": 0}
+         "relink": 1, "trav": 3, "find": 3, "next": 2, "end": 0,
+         "fclone": 2, "flclone": 2, "ftclone": 2, "loc": 3, "walk": 4,
+         "zadd": 3, "zaddn": 3, "zins": 3, "zmove": 1, "zpos": 1, "zunlink": 0, "zdestroy": 0, "zrelink": 0,
+         "zclone": 0, "zlclone": 0, "ztclone": 0, "ztrav": 2, "ztravh": 1, "zloc": 1, "zfind": 0, "znext": 0,
+         "zsame": 1, "zsub": 1}
 NAMES = ["-", "a", "b", "c"]
+# L: a text of 21 characters (needs an allocation of its own in a default node and in a clone); B: a binary identifier;
+# M: a text of 29 characters (allocation of its own in a default node; the node of a clone is made big enough)
+NAMES_X = ["-", "a", "b", "c", "L", "M"]
+QUERIES = ["ta", "tb", "tc", "tL", "tM", "t-", "pa", "ua", "xa", "Ba", "Bb", "U0", "E", "p6", "pu", "pn"]
+ORDERS = ["pre", "in", "post", "level"]
+# positions of a case line that are numbers but not node indices (for the renumbering shrinker)
+NOT_A_NODE = {"new": (1, 2), "add": (2,), "nadd": (2,), "ins": (2,), "nins": (2,), "trav": (1, 2), "find": (2, 3), "next": (2,),
+              "fclone": (1,), "flclone": (1,), "ftclone": (1,), "loc": (2, 3), "walk": (1, 2, 3), "zadd": (1, 2),
+              "zaddn": (1, 3), "zins": (1, 3), "zpos": (1,), "ztrav": (1, 2), "zloc": (1,), "zsame": (1,), "zsub": (1,)}
+
+# ---- switches for defects of /repo that are reported with a patch but not committed yet.  While a switch is False
+# the generator leaves out the cases that run into the defect (the model is written for the patched code).
+# docs/C14_clone_ident_fail.diff: mpt_node_clone goes on with the destroyed copy after a failed mpt_identifier_copy.
+# Left out while False: clones with an allocation failure (fclone/flclone/ftclone) in histories that have a node
+# with the long name L (the only identifier mpt_identifier_copy allocates for).
+PATCHED_CLONE_IDENT_FAIL = False
+# docs/C14_locate_ptr_ident.diff: mpt_node_locate(.., ident, 0, charset != 0) compares the pointer only, not the
+# length, on the forward and the last-node path.  Left out while False: the query token "pn" (NULL, 0, UTF8).
+PATCHED_LOCATE_PTR = False
+
+
+def allowed(case):
+    t = case.split()
+    if not PATCHED_CLONE_IDENT_FAIL and any(x in ("fclone", "flclone", "ftclone") for x in t):
+        for i in range(len(t) - 1):
+            if t[i] == "new" and t[i + 1] == "L":
+                return False
+    if not PATCHED_LOCATE_PTR and "pn" in t:
+        return False
+    return True
 
 
 # ----------------------------------------------------------------------------- generator-side tracker
@@ -16,6 +50,7 @@ class Tracker:
 
     def __init__(self):
         self.name = {}
+        self.val = {}
         self.par = {}      # id -> parent id or None
         self.kids = {}     # id -> ordered child ids
         self.tops = []     # top-level sibling lists
@@ -62,10 +97,11 @@ class Tracker:
     def can_link(self, p, x):
         return self.alive(p) and self.unlinked(x) and not self.anc_or_eq(x, p)
 
-    def fresh(self, nm):
+    def fresh(self, nm, v=0):
         i = self.count
         self.count += 1
         self.name[i] = nm
+        self.val[i] = v
         self.par[i] = None
         self.kids[i] = []
         return i
@@ -110,14 +146,56 @@ class Tracker:
     def free(self, x):
         for k in list(self.kids[x]):
             self.free(k)
-        del self.name[x], self.par[x], self.kids[x]
+        del self.name[x], self.par[x], self.kids[x], self.val[x]
 
-    def copy(self, x, par):
-        c = self.fresh(self.name[x])
-        self.par[c] = par
-        for k in self.kids[x]:
-            self.kids[c].append(self.copy(k, c))
-        return c
+    def clone(self, srcs, k, deep):
+        """mpt_node_clone / list_clone / tree_clone of the nodes `srcs` (with what is below them when `deep`);
+        k = number of the allocation that fails (0: none).  A failed clone has consumed ids, nothing else."""
+        plan = []          # (name, val, parent index in plan or None)
+        st = {"k": k, "n": 0}
+
+        def tick():
+            if st["k"] == 0:
+                return False
+            st["k"] -= 1
+            return st["k"] == 0
+
+        def one(x, par):
+            if self.val[x] == 3:
+                return False
+            if tick():
+                return False
+            st["n"] += 1
+            me = len(plan)
+            plan.append((self.name[x], self.val[x], par))
+            if self.name[x] == "L" and tick():
+                return False
+            if deep:
+                for c in self.kids[x]:
+                    if not one(c, me):
+                        return False
+            return True
+        ok = True
+        for x in srcs:
+            if not one(x, None):
+                ok = False
+                break
+        if not ok:
+            self.count += st["n"]
+            self.labels.add("clone-fails")
+            return False
+        ids = []
+        top = []
+        for nm, v, par in plan:
+            c = self.fresh(nm, v)
+            ids.append(c)
+            if par is None:
+                top.append(c)
+            else:
+                self.par[c] = ids[par]
+                self.kids[ids[par]].append(c)
+        self.tops.append(top)
+        return True
 
     def move_l(self, src, srcpar, dst, dstpar):
         """node_move.c on id lists (in place); returns the count"""
@@ -149,7 +227,11 @@ class Tracker:
         op = o[0]
         I = lambda s: -1 if s == "-" else int(s)
         if op == "new":
-            self.tops.append([self.fresh(o[1])])
+            self.tops.append([self.fresh(o[1], int(o[2]))])
+            if o[1] in ("L", "B", "M"):
+                self.labels.add("name:" + o[1])
+            if o[2] == "3":
+                self.labels.add("value:unclonable")
             return True
         if op in ("after", "before"):
             p, x = I(o[1]), I(o[2])
@@ -210,12 +292,16 @@ class Tracker:
             if not src:
                 self.tops.remove(src)
             return True
-        if op in ("clone", "lclone", "tclone"):
-            x = int(o[1])
+        if op in ("clone", "lclone", "tclone", "fclone", "flclone", "ftclone"):
+            k = int(o[1]) if op[0] == "f" else 0
+            x = int(o[-1])
+            op = op[1:] if op[0] == "f" else op
             if not self.alive(x):
                 return False
+            if k:
+                self.labels.add("clone-oom")
             if op == "clone":
-                self.tops.append([self.fresh(self.name[x])])
+                self.clone([x], k, False)
                 return True
             l = self.sibs(x)
             src = [x] if op == "tclone" else l[l.index(x):]
@@ -223,7 +309,7 @@ class Tracker:
                 self.labels.add("clone-depth>=2")
             if len(src) > 1:
                 self.labels.add("clone-list>1")
-            self.tops.append([self.copy(y, None) for y in src])
+            self.clone(src, k, True)
             return True
         if op == "clear":
             x = int(o[1])
@@ -275,6 +361,24 @@ class Tracker:
             return self.alive(int(o[-1]))
         if op in ("find", "next"):
             return self.alive(int(o[1]))
+        if op == "loc":
+            self.labels.add("loc:" + o[3])
+            self.labels.add("loc-pos:" + ("0" if o[2] == "0" else "+" if int(o[2]) > 0 else "-"))
+            return self.alive(int(o[1]))
+        if op == "walk":
+            self.labels.add("walk:" + o[1])
+            if o[3] != "0":
+                self.labels.add("walk-stop")
+            x = int(o[4])
+            if self.alive(x) and o[1] == "level":
+                l = self.sibs(x)
+                if max(self.depth_below(y) for y in l[l.index(x):]) >= 3:
+                    self.labels.add("walk:level-depth>=3")
+            return self.alive(x)
+        if op[0] == "z":
+            self.labels.add("null-call:" + op)
+            a = {"zadd": 3, "zaddn": 2, "zins": 2, "zmove": 1, "ztravh": 1}.get(op)
+            return True if a is None else self.alive(int(o[a]))
         if op == "end":
             return True
         raise ValueError(op)
@@ -420,8 +524,7 @@ class C14(DiffProperty):
                 for o in body[k + 1:]:
                     o = list(o)
                     for j in range(1, len(o)):
-                        if o[0] in ("new",) or (o[0] in ("add", "nadd", "ins", "nins") and j == 2) or (o[0] == "trav" and j < 3) \
-                                or (o[0] == "find" and j >= 2) or (o[0] == "next" and j == 2):
+                        if j in NOT_A_NODE.get(o[0], ()):
                             continue
                         if o[j].lstrip("-").isdigit() and o[j] != "-":
                             v = int(o[j])
@@ -474,7 +577,8 @@ class C14(DiffProperty):
             r = rng.random()
             alive = list(tr.name)
             if not alive or (created < maxnew and r < (0.5 if created < 4 else 0.12)):
-                emit(["new", rng.choice(NAMES if rng.random() < 0.3 else ["a", "b", "c", "a", "b"]), rng.choice([0, 0, 1, 2])])
+                emit(["new", rng.choice(NAMES if rng.random() < 0.3 else ["a", "b", "c", "a", "b", "a", "b", "L", "B", "M"]),
+                      rng.choice([0, 0, 1, 2, 0, 0, 1, 2, 3])])
                 created += 1
                 # usually link the new node at once
                 x = tr.count - 1
@@ -495,7 +599,7 @@ class C14(DiffProperty):
                 continue
             unl = [x for x in alive if tr.unlinked(x)]
             kind = rng.choice(["link", "link", "unlink", "unlink", "move", "move", "clone", "clone", "clear", "destroy",
-                               "swap", "switch", "relink", "trav", "find", "next"])
+                               "swap", "switch", "relink", "trav", "find", "next", "walk", "walk", "loc", "null"])
             if kind == "link" and unl:
                 self.gen_link(rng, tr, emit, pos, rng.choice(unl))
             elif kind == "unlink":
@@ -521,7 +625,10 @@ class C14(DiffProperty):
                     x = rng.choice(deep)
                 op = rng.choice(["clone", "lclone", "tclone", "tclone", "lclone"])
                 if tr.count + len(tr.sub(tr.top(x))) + 4 <= maxids:
-                    emit([op, x])
+                    if rng.random() < 0.3:
+                        emit(["f" + op, rng.choice([1, 1, 2, 2, 3, 4, rng.randint(1, 9)]), x])
+                    else:
+                        emit([op, x])
             elif kind == "clear":
                 emit(["clear", rng.choice(alive)])
             elif kind == "destroy":
@@ -537,12 +644,59 @@ class C14(DiffProperty):
             elif kind == "find":
                 ps = [x for x in alive if tr.kids[x]]
                 emit(["find", rng.choice(ps) if ps and rng.random() < 0.85 else rng.choice(alive),
-                      rng.choice(NAMES), pos(2)])
+                      rng.choice(NAMES_X), pos(2)])
             elif kind == "next":
-                emit(["next", rng.choice(alive), rng.choice(NAMES)])
+                emit(["next", rng.choice(alive), rng.choice(NAMES_X)])
+            elif kind == "walk":
+                deep = [y for y in alive if tr.depth_below(y) >= 3]
+                x = rng.choice(deep) if deep and rng.random() < 0.5 else rng.choice(alive)
+                emit(["walk", rng.choice(ORDERS + ["level"]), rng.choice([1, 2, 3, 3, 3]),
+                      rng.choice([0, 0, 1, 2, 3, rng.randint(1, 12)]), x])
+            elif kind == "loc":
+                emit(["loc", rng.choice(alive), pos(2), rng.choice(QUERIES)])
+            elif kind == "null":
+                emit(self.gen_null(rng, alive))
             elif kind == "trav":
                 emit(["trav", rng.choice(["pre", "in", "post"]), rng.choice([1, 2, 3, 3]), rng.choice(alive)])
         return " ".join(" ".join(o) for o in ops + [["end"]])
+
+    def gen_null(self, rng, alive):
+        x = rng.choice(alive)
+        p = rng.choice([0, 1, -1, 2])
+        return rng.choice([["zadd", rng.choice("gn"), p, x], ["zaddn", rng.choice("gn"), x, p], ["zins", rng.choice("gn"), x, p],
+                           ["zmove", x], ["zpos", p], ["zunlink"], ["zdestroy"], ["zrelink"], ["zclone"], ["zlclone"],
+                           ["ztclone"], ["ztrav", rng.choice(ORDERS), rng.choice([1, 2, 3])], ["ztravh", x], ["zloc", p],
+                           ["zfind"], ["znext"], ["zsame", rng.choice([0, 1, 2])], ["zsub", rng.choice([0, 1, 2])]])
+
+    def gen_level(self, rng):
+        """a forest of depth up to 4 with uneven levels (childless nodes between parents), walked in every order
+        from several start nodes, with and without a handler that stops"""
+        ops = []
+        n = 0
+        par = {}
+        depth = {}
+        for r in range(rng.choice([1, 2, 3])):
+            ops.append("new %s %d" % (rng.choice("abc"), rng.choice([0, 0, 1])))
+            if n and r:
+                ops.append("after %d %d" % (roots[-1], n))
+                roots.append(n)
+            else:
+                roots = [n]
+            depth[n] = 0
+            n += 1
+        for _ in range(rng.randint(3, 10)):
+            cand = [x for x in range(n) if depth[x] < 4]
+            # prefer deep and late parents so that levels get holes
+            p = rng.choice(cand + [x for x in cand if depth[x] >= 1] * 2)
+            ops.append("new %s 0" % rng.choice("abc"))
+            ops.append("ins %d %d %d" % (p, rng.choice([0, 0, 1, -1]), n))
+            depth[n] = depth[p] + 1
+            n += 1
+        for _ in range(rng.choice([2, 3, 4])):
+            x = rng.randrange(n) if rng.random() < 0.5 else roots[0]
+            ops.append("walk %s %d %d %d" % (rng.choice(["level", "level", "level", "pre", "in", "post"]),
+                                             rng.choice([1, 2, 3, 3]), rng.choice([0, 0, 0, rng.randint(1, n + 1)]), x))
+        return " ".join(ops) + " end"
 
     def gen_link(self, rng, tr, emit, pos, x):
         tg = [p for p in tr.name if p != x and not tr.anc_or_eq(x, p)]
@@ -625,6 +779,68 @@ class C14(DiffProperty):
                     cases.append(sh + " next %d %s end" % (x, nm))
                     for q in range(-3, 4):
                         cases.append(sh + " find %d %s %d end" % (x, nm, q))
+                for o in ORDERS:
+                    for fl in (1, 2, 3):
+                        for k in range(0, 5):
+                            cases.append(sh + " walk %s %d %d %d end" % (o, fl, k, x))
+                for k in range(1, 5):
+                    for op in ("fclone", "flclone", "ftclone"):
+                        cases.append(sh + " %s %d %d end" % (op, k, x))
+                        cases.append(sh + " %s %d %d tclone 0 end" % (op, k, x))
+            for nc in (["zadd g 1 0", "zadd n 0 1", "zaddn g 0 1", "zaddn n 1 0", "zins g 0 0", "zins n 1 -1", "zmove 0", "zmove 2",
+                        "zpos 0", "zpos 1", "zpos -1", "zunlink", "zdestroy", "zrelink", "zclone", "zlclone", "ztclone", "ztravh 0",
+                        "zloc 0", "zloc 1", "zloc -1", "zfind", "znext", "zadd g 0 7", "ztravh 7", "zsame 0", "zsame 2", "zsub 0", "zsub 1",
+                        "after 0 -", "before 1 -", "after - -", "before - -", "after - 2", "before - 0", "after 1 1", "before 2 2"]
+                       + ["ztrav %s %d" % (o, fl) for o in ORDERS for fl in (1, 3)]):
+                cases.append(sh + " " + nc + " end")
+        # mpt_node_locate with every kind of query from every node of lists that hold every kind of identifier
+        lists = ["new a 0 new b 0 new a 0 new L 0 new B 0 new - 0 new a 0 after 0 1 after 1 2 after 2 3 after 3 4 after 4 5 after 5 6",
+                 "new c 0 new L 0 new a 0 new B 0 new L 0 ins 0 0 1 ins 0 0 2 ins 0 0 3 ins 0 0 4",
+                 "new M 0 new a 0 new M 1 new L 0 new M 0 after 0 1 after 1 2 after 2 3 after 3 4 lclone 0"]
+        for li, sh in enumerate(lists):
+            for x in ((0, 3, 6) if li == 0 else (1, 2, 4) if li == 1 else (0, 2, 9)):
+                for q in QUERIES:
+                    for pos in range(-3, 4):
+                        cases.append(sh + " loc %d %d %s end" % (x, pos, q))
+            for nm in NAMES_X:
+                for x in ((0, 3) if li == 0 else (1, 3) if li == 1 else (0, 7)):
+                    cases.append(sh + " next %d %s end" % (x, nm))
+                    for pos in (-2, -1, 0, 1, 2):
+                        cases.append(sh + " find %d %s %d end" % (0, nm, pos))
+        # clones that fail: a value that cannot be cloned / the k-th allocation, at every place of a tree of depth 3
+        for bad in range(6):
+            vals = [3 if i == bad else (1 if i == 2 else 0) for i in range(6)]
+            t = ("new a %d new b %d new a %d new c %d new b %d new a %d ins 0 0 1 ins 0 0 2 ins 1 0 3 ins 1 0 4 ins 4 0 5"
+                 % tuple(vals))                                    # 0(1(3,4(5)),2)
+            for x in (0, 1, 4):
+                for op in ("clone", "lclone", "tclone"):
+                    cases.append(t + " %s %d end" % (op, x))
+                    cases.append(t + " %s %d unlink 1 destroy 1 end" % (op, x))
+        t = "new a 1 new b 0 new a 2 new c 0 new b 1 new a 0 ins 0 0 1 ins 0 0 2 ins 1 0 3 ins 1 0 4 ins 4 0 5"
+        for k in range(1, 9):
+            for x in (0, 1, 3):
+                for op in ("fclone", "flclone", "ftclone"):
+                    cases.append(t + " %s %d %d end" % (op, k, x))
+                    cases.append(t + " %s %d %d lclone 0 end" % (op, k, x))
+        # the same with long names: mpt_identifier_copy allocates
+        t = "new L 1 new b 0 new L 2 new c 0 new L 1 new a 0 ins 0 0 1 ins 0 0 2 ins 1 0 3 ins 1 0 4 ins 4 0 5"
+        for x in (0, 1, 4):
+            for op in ("clone", "lclone", "tclone"):
+                cases.append(t + " %s %d end" % (op, x))
+            for k in range(1, 10):
+                for op in ("fclone", "flclone", "ftclone"):
+                    cases.append(t + " %s %d %d end" % (op, k, x))
+        # level order on a forest with holes:   0(2(5,6(9)),3) 1(4(7(8)))   and   0(1,2(3(4)),5(6))
+        for sh in ("new a 0 new b 0 after 0 1 new a 0 new b 0 new c 0 ins 0 0 2 ins 0 0 3 ins 1 0 4 new a 0 new b 0 new c 0 "
+                   "ins 2 0 5 ins 2 0 6 ins 4 0 7 new a 0 new b 0 ins 7 0 8 ins 6 0 9",
+                   "new a 0 new b 0 new c 0 new a 0 new b 0 new c 0 new a 0 ins 0 0 1 ins 0 0 2 ins 2 0 3 ins 3 0 4 ins 0 0 5 ins 5 0 6"):
+            nn = sh.count("new ")
+            for x in range(nn):
+                for fl in (1, 2, 3):
+                    cases.append(sh + " walk level %d 0 %d end" % (fl, x))
+            for k in range(1, nn + 2):
+                for o in ORDERS:
+                    cases.append(sh + " walk %s 3 %d 0 end" % (o, k))
         # merges of two small trees with overlapping names
         for n1 in ("a", "b"):
             for n2 in ("a", "b"):
@@ -683,7 +899,9 @@ class C14(DiffProperty):
             cases.append(self.gen_history(rng, nops, 8, 28))
         for i in range(n // 4):
             cases.append(self.gen_merge(rng))
-        return cases
+        for i in range(n // 4):
+            cases.append(self.gen_level(rng))
+        return [c for c in cases if allowed(c)]
 
 
 PROP = C14()
